@@ -336,6 +336,7 @@ def gen_instance(rng, big=False):
                 for j in range(i):
                     m[i][j] = m[j][i] = rng.randrange(0, 64) / 64.0
             comp["matrix"] = m
+            comp.pop("matrix_dtype", None)       # these entries are fractions: a float32 matrix
         if comp["kind"] == "ordinal":
             comp["p"] = None if rng.random() < 0.5 else [float(rng.randrange(-50, 500)) for _ in labels]
     return d
@@ -363,7 +364,7 @@ def make_twin(rng, dspec):
                 if ci in old and cj in old:
                     m[i][j] = tc["matrix"][old.index(ci)][old.index(cj)]
                 else:
-                    m[i][j] = m[j][i] if j < i else 0.75
+                    m[i][j] = m[j][i] if j < i else (0.75 if tc.get("matrix_dtype") in (None, "float64") else 1.0)
         tc["cats"], tc["matrix"] = cats, m
         what = "number-of-categories"
     elif tc["kind"] == "levenshtein":
